@@ -87,6 +87,12 @@ def make_container(case):
     enum = {0: InitialStateEnum.ZERO, 1: InitialStateEnum.ONE}
     if case["data"] is None and case["anc"] is None:
         return None
+    if case.get("data_states"):
+        # (C10 only) any of the six preparable states by name; the bit lists then only fix the sizes
+        return InitialStateContainer.from_ordered_list(
+            [InitialStateEnum[n] for n in case["data_states"]],
+            None if not case.get("anc_states") else [InitialStateEnum[n] for n in case["anc_states"]],
+        )
     return InitialStateContainer.from_ordered_list(
         [enum[b] for b in (case["data"] or [])],
         None if case["anc"] is None else [enum[b] for b in case["anc"]],
